@@ -127,7 +127,7 @@ def rule_a(repo, chk):
             chk.ob('C12.a', True, node, 'sink %s in CLI/REPL-only module (%s)' % (sink, CLI_ONLY[mod]), key='%s|%s|%s' % key)
             continue
         ok = key in EXPECTED_SINKS
-        n_exp += ok
+        n_exp += 1
         chk.ob('C12.a', ok, node, 'execution sink `%s` (%s) is in the triaged table' % (short(node, 50), sink),
                EXPECTED_SINKS.get(key, 'UNLISTED execution sink'), key='%s|%s|%s' % key)
     chk.floor('C12.a', n_exp, 4, '(triaged execution sinks found)')
@@ -191,7 +191,7 @@ def rule_b(repo, chk):
         ok = key in allowed and (allowed[key] is None or r == allowed[key])
         if key == (COMPILED, 'load_module'):
             ok = ok and isinstance(c.func, ast.Attribute) and isinstance(c.func.value, ast.Attribute) and c.func.value.attr == 'compiled_subprocess'
-        n += ok
+        n += 1
         chk.ob('C12.b', ok, c, 'call `%s` of a load_module is one of the three chained sites' % short(c, 60),
                'caller %s:%s resolves to %s' % (key[0], key[1], r))
     chk.floor('C12.b', n, 3, '(load_module chain)')
@@ -215,7 +215,7 @@ def rule_b(repo, chk):
     k = 0
     for c in sites:
         ok = (c._mod.name, repo.qual_of(c)) == (IMPORTS, 'import_module')
-        k += ok
+        k += 1
         chk.ob('C12.b', ok, c, '_load_builtin_module is called from import_module only')
     chk.floor('C12.b', k, 2, '(calls of _load_builtin_module)')
     chk.exhaustive_rules.append('C12.b every call site named load_module/_load_builtin_module in the package')
@@ -509,7 +509,7 @@ def rule_f(repo, chk):
                    key='%s|%s|%s' % (mod, q, what))
             continue
         ok = (mod, q, what) in EXPECTED_HOST
-        n_exp += ok
+        n_exp += 1
         chk.ob('C12.f', ok, node, 'host-state write `%s` (%s) is a triaged site' % (short(repo.enclosing_stmt(node), 60), what),
                EXPECTED_HOST.get((mod, q, what), 'UNLISTED write to interpreter-global state'), key='%s|%s|%s' % (mod, q, what))
     chk.floor('C12.f', n_exp, 4, '(sys.path swap statements + stdout)')
